@@ -45,6 +45,12 @@ def cases(tier, rng):
         ts = [rng.choice(ins) for _ in range(k)]
         o = rng.choice(outs)
         out.append(("(bip %s (%s %s) %s)" % (name, " ".join(ts), o, ss_from(d)), "random" if o == OUT else "random-bound-out"))
+    from gen.universe import tail_chain
+    el = [a, b, c, q, integer(1), lst([a])]
+    for ids, last in (([4, 68, 132], None), ([5, 261, 517, 69], lst([c, b])), (list(range(30, 97)), None), (list(range(30, 160)), lst([q])), ([9, 65545, 73], None)):
+        l, d = tail_chain(ids, el, last)
+        for ts in ([l], [l, lst([a, b])], [a, l], [l, l]):
+            out.append(("(bip %s (%s %s) %s)" % (name, " ".join(ts), OUT, ss_from(d)), "random"))
     out.append(("(bip %s (%s) (ss))" % (name, OUT), "malformed"))
     out.append(("(bip %s () (ss))" % name, "malformed"))
     out.append(("(bip %s none (ss))" % name, "malformed"))
@@ -59,7 +65,7 @@ RULE = ("append with 1 input (all of 26 inputs, three of them lists of 9-17 elem
         "lists with bound / unbound / $_ tails, bound and unbound variables, a function term. Oracle (python twin of "
         "Spec.SpecLists.Contrib) on the implementation's own result whenever every input has a contribution and the output "
         "argument is a fresh variable: it is bound to the list holding exactly the concatenated contributions and no other "
-        "binding changes; when the output argument is a term (closed and open lists, also with $_ tails, [], an atom, $_), append "
+        "binding changes (also for lists spread over chains of 3-130 bound tail variables, with ids that collide modulo 64 / 256 / 65536); when the output argument is a term (closed and open lists, also with $_ tails, [], an atom, $_), append "
         "succeeds exactly when a reference unifier unifies that term with the concatenation. Non-trivial = some input is a list with a bound tail or has a list-valued element.")
 
 def nontrivial(case, tag, result):
@@ -110,7 +116,7 @@ def relations(cases, impl):
             ent = p[1]
             got = ent[20] if len(ent) > 20 else None
             if got != pyspec.make_list(exp): why = "the output is not the list of the concatenated contributions"
-            elif [e for e in ent[:20]] [:len(ent0)] != ent0 or any(e is not None for e in ent[len(ent0):20]):
+            elif {k: e for k, e in enumerate(ent) if e is not None and k != 20} != {k: e for k, e in enumerate(ent0) if e is not None}:
                 why = "append changed a binding other than the output argument's"
         if why:
             yield dict(case=case, tag=tag, why=why, implementation=dict(result=res),
